@@ -1025,7 +1025,91 @@ def rule_rewind_to_where_it_started(ctx: Ctx, rep: Report) -> None:
     rep.floor(rule, 2)
 
 
+_COMPUTED_INDEX_SAMPLE = """
+def is_prefixed(addr, hrp):
+    return addr.startswith(hrp) and addr[len(hrp)] == "1"
+"""
+
+
+def _computed_index_reads(fn: ast.AST) -> list[ast.Subscript]:
+    out = []
+    for s_ in own_nodes(fn):
+        if isinstance(s_, ast.Subscript) and isinstance(s_.ctx, ast.Load) and not isinstance(s_.slice, ast.Slice) and \
+                any(isinstance(c, ast.Call) and call_name(c) == "len" for c in ast.walk(s_.slice)):
+            out.append(s_)
+    return out
+
+
+def rule_predicates_read_no_computed_position(ctx: Ctx, rep: Report) -> None:
+    """C19.predicates_read_no_computed_position: a predicate answers False for text that
+    is too short, it does not index past its end: in the public boolean
+    functions, an item read at a position computed from a length
+    (`addr[len(hrp)]`) stands under a `try` that catches IndexError or under a
+    test of the value's own length. A slice cannot raise; an index can --
+    `is_segwit_prefixed("bc")` would be an IndexError, and `bms.verify` with it."""
+    from sa.loader import _set_parents
+    rule = "C19.predicates_read_no_computed_position"
+    sample = ast.parse(_COMPUTED_INDEX_SAMPLE)
+    _set_parents(sample)
+    rep.ob(rule, "selftest:sample", len(_computed_index_reads(sample.body[0])) == 1, "rules/C19.py:1", "the detector fires on its own sample (expected count on the tree is zero)")
+    n = 0
+    for fi in _bool_functions(ctx):
+        n += 1
+        reads = _computed_index_reads(fi.node)
+        if not reads:
+            continue
+        g = ctx.cfg(fi)
+        for s_ in reads:
+            covered = False
+            child, p_ = s_, parent(s_)
+            while p_ is not None and p_ is not fi.node:
+                if isinstance(p_, ast.Try) and child in p_.body and any(h.type is None or any(x in norm(h.type) for x in ("IndexError", "LookupError", "Exception")) for h in p_.handlers):
+                    covered = True
+                child, p_ = p_, parent(p_)
+            base = norm(s_.value)
+            if not covered:
+                covered = any(f"len({base})" in t for t, _pol in g.facts_at_ast(s_))
+            rep.ob(rule, f"{fi.qualname}:{norm(s_)[:40]}", covered, fi.where(s_), "under a length test or an IndexError handler" if covered else
+                   f"`{norm(s_)}` reads a computed position with nothing having asked how long `{base}` is: text that ends there is an IndexError, not False")
+    rep.ob(rule, "scanned", True, "btclib:1", f"{n} public boolean functions")
+    rep.floor(rule, 2)
+
+
+def rule_partial_sigs_each_parsed(ctx: Ctx, rep: Report) -> None:
+    """C19.partial_sigs_each_parsed: the Finalizer and `assert_signed` read `sig[-1]` and
+    `sig[:-1]` of every partial signature a psbt holds, on the strength of
+    the parser having validated each: in `_assert_valid_partial_sigs` every
+    entry of the map reaches the key parse and the DER parse -- no
+    `continue`, no `break`, neither parse under a condition. An entry let
+    through unparsed (an empty value) is an IndexError two roles later."""
+    rule = "C19.partial_sigs_each_parsed"
+    fi = ctx.func("btclib.psbt.psbt_in._assert_valid_partial_sigs")
+    loops = [n for n in own_nodes(fi.node) if isinstance(n, ast.For)]
+    if len(loops) != 1:
+        rep.unknown(rule, "_assert_valid_partial_sigs", fi.where(), f"{len(loops)} loops")
+        return
+    skips = [n for n in ast.walk(loops[0]) if isinstance(n, (ast.Continue, ast.Break, ast.Return))]
+    rep.ob(rule, "no_entry_skipped", not skips, fi.where(skips[0] if skips else loops[0]), "every entry goes through the loop body" if not skips else
+           f"`{norm(parent(skips[0]))[:60]}` lets an entry past the parses: the roles that read it index into a value nothing validated")
+    for what, nm in (("key", "point_from_octets"), ("signature", "parse")):
+        calls = [c for c in ast.walk(loops[0]) if isinstance(c, ast.Call) and call_name(c) == nm]
+        cond = False
+        for c in calls:
+            p_ = parent(c)
+            while p_ is not None and p_ is not loops[0]:
+                if isinstance(p_, (ast.If, ast.IfExp, ast.BoolOp)):
+                    cond = True
+                p_ = parent(p_)
+        ok = bool(calls) and not cond
+        rep.ob(rule, f"{what}_parsed_unconditionally", ok, fi.where(calls[0] if calls else loops[0]), f"the {what} of every entry is parsed" if ok else f"the {what} parse is missing or under a condition")
+    rep.floor(rule, 3)
+
+
 RULES = [
+    ("C19.partial_sigs_each_parsed", rule_partial_sigs_each_parsed),
+
+    ("C19.predicates_read_no_computed_position", rule_predicates_read_no_computed_position),
+
     ("C19.shares_agree_on_length", rule_shares_agree_on_length),
     ("C19.rewind_to_where_it_started", rule_rewind_to_where_it_started),
 
